@@ -232,12 +232,13 @@ def _labels(img):
 # ------------------------------------------------------------------------------------------------
 def mc_cases(ctx):
     specs = []
-    res = ctx.mc("MC_Skeleton", ctx.pick("MC_Skeleton.cfg", "MC_Skeleton_thorough.cfg"), timeout=1500)
+    res = ctx.mc("MC_Skeleton", ctx.pick("MC_Skeleton.cfg", "MC_Skeleton_thorough.cfg"), timeout=1500, workers=8, heap="3g")
     for inst in sorted(res.printed, key=lambda r: json.dumps(r, sort_keys=True)):
         specs.append({"kind": "junction", "n": inst["n"], "window": inst["window"], "exits": inst["exits"],
                       "order": "raster" if len(specs) % 2 == 0 else "reverse"})
     ctx.extra["mc_junction_windows"] = len(res.printed)
-    res = ctx.mc("MC_SkeletonRooms", ctx.pick("MC_SkeletonRooms.cfg", "MC_SkeletonRooms_thorough.cfg"), timeout=1500)
+    res = ctx.mc("MC_SkeletonRooms", ctx.pick("MC_SkeletonRooms.cfg", "MC_SkeletonRooms_thorough.cfg"), timeout=1500,
+                 workers=8, heap="3g")
     for inst in sorted(res.printed, key=lambda r: json.dumps(r, sort_keys=True)):
         specs.append({"kind": "rooms", "nx": inst["nx"], "ny": inst["ny"], "hwalls": inst["hwalls"],
                       "vwalls": inst["vwalls"], "expect": inst["expect"],
@@ -307,6 +308,10 @@ def run(ctx):
                 "skeletons. Non-trivial = premise accepted by TLC for the base reading and the truth has at least one "
                 "internal pair (an interior junction exists).")
     ctx.exhaustive = False
+    ctx.extra["exhaustive_subspaces"] = {
+        "junction_windows": "every triple of ring pixels of the (2N+1)^2 window with consecutive arms 25..180 degrees apart, "
+                            f"N = {ctx.pick(2, 3)} (MC_Skeleton), each replayed through the parser",
+        "room_layouts": f"every valid wall layout of a 3 x {ctx.pick(2, 3)} grid of rooms (MC_SkeletonRooms), each replayed"}
     ctx.assumptions += ["TLC/SANY and the CommunityModules Json reader are trusted",
                         "harness/imgtopo.py (4-connected background labelling, junction clusters, pixel chains; "
                         "numpy/scipy.ndimage) reports the image faithfully; cross-checked by TLC against the room "
